@@ -4,23 +4,32 @@
 //! instrumented finite source (signal::from_iter over a counting iterator, wrapped in a
 //! Signal that counts `next` calls).
 //!
-//! Input line:  `<fmt> <itp> <nch> ; <samples, frame-major> ; <ctor> ; <op> , <op> , ...`
-//!   fmt  0 f64, 1 f32, 2 i16 (nch 1: bare sample frame, nch 2: [i16; 2]), 3 u8
+//! Input line:  `<fmt> <itp> <nch> <own> <tail> ; <samples, frame-major> ; <ctor> ; <op> , <op> , ...`
+//!   fmt  0 f64, 1 f32, 2 i16 (nch 1: bare sample frame, nch 2: [i16; 2]), 3 u8,
+//!        100.. = 100 + format code (i8 i16 I24 i32 I48 i64 u8 u16 U24 u32 U48 u64 f32 f64), nch 1,
+//!        nch 2 for [U24; 2] and [U48; 2]
+//!   own  0 the converter owns the source, 1 it is built over `source.by_ref()`,
+//!        2 over `&mut source` handed to the Converter constructors / `(&mut source).mul_hz(..)`
+//!   tail number of frames pulled from the source itself after the converter was dropped (own != 0)
 //!   itp  0 Floor::new(source.next()), 1 Linear::new(source.next(), source.next())
 //!   ctor `hz a b` | `scale m` | `sample m` | `mul c0 c1 ...`      (f64 bit patterns)
 //!   op   `n` next | `p x` set_playback_hz_scale | `h a b` set_hz_to_hz | `s x` set_sample_hz_scale
+//!        | `u cap` until_exhausted().take(cap).count() (on `by_ref()` of the converter, on the converter
+//!          itself when it is the last operation)
 //! Output: observations joined by ';'
 //!   `0 pulls iter`                       after priming + construction
 //!   `8 code`                             constructor panicked (then nothing else)
 //!   `1 exh pulls iter valuebits frame..` one output of a Converter (exh = is_exhausted before it)
 //!   `2 exh pulls iter frame..`           one output of a MulHz
 //!   `3`                                  a set_* call
+//!   `4 count pulls`                      until_exhausted
+//!   `5 exh pulls iter frame..`           one frame pulled from the source after the converter was dropped
 //! floats are bit patterns, NaN canonicalised.
 use dasp_frame::Frame;
 use dasp_interpolate::floor::Floor;
 use dasp_interpolate::linear::Linear;
 use dasp_interpolate::Interpolator;
-use dasp_sample::Duplex;
+use dasp_sample::{Duplex, I24, I48, U24, U48};
 use dasp_signal::interpolate::Converter;
 use dasp_signal::{self as signal, Signal};
 use dasp_verif_harness::*;
@@ -90,6 +99,29 @@ impl Enc for [i16; 2] {
     }
 }
 
+macro_rules! enc_prim {
+    ($($T:ty),*) => {$(
+        impl Enc for $T {
+            fn enc(&self) -> Vec<i128> { vec![*self as i128] }
+            fn dec(v: &[i128]) -> Self { v[0] as $T }
+        }
+    )*};
+}
+enc_prim!(i8, i32, i64, u16, u32, u64);
+macro_rules! enc_custom {
+    ($($T:ident: $R:ty),*) => {$(
+        impl Enc for $T {
+            fn enc(&self) -> Vec<i128> { vec![self.inner() as i128] }
+            fn dec(v: &[i128]) -> Self { $T::new(v[0] as $R).expect("sample value in range") }
+        }
+        impl Enc for [$T; 2] {
+            fn enc(&self) -> Vec<i128> { vec![self[0].inner() as i128, self[1].inner() as i128] }
+            fn dec(v: &[i128]) -> Self { [$T::new(v[0] as $R).expect("range"), $T::new(v[1] as $R).expect("range")] }
+        }
+    )*};
+}
+enc_custom!(I24: i32, U24: i32, I48: i64, U48: i64);
+
 /// Iterator over the given frames counting Iterator::next calls.
 struct CountIter<F> {
     frames: std::vec::IntoIter<F>,
@@ -132,11 +164,12 @@ fn toks(s: &str) -> Vec<i128> {
     s.split_whitespace().map(|t| t.parse::<i128>().expect("int token")).collect()
 }
 
-fn drive<F, I>(
-    src: Counted<signal::FromIterator<CountIter<F>>>,
+fn drive<F, I, S>(
+    src: S,
     interp: I,
     pulls: &Rc<Cell<i128>>,
     calls: &Rc<Cell<i128>>,
+    own: i128,
     ctor: &[&str],
     ops: &[Vec<&str>],
 ) -> Vec<String>
@@ -144,60 +177,90 @@ where
     F: Enc,
     F::Sample: Duplex<f64>,
     I: Interpolator<Frame = F>,
+    S: Signal<Frame = F>,
 {
     let p: Vec<i128> = ctor[1..].iter().map(|t| t.parse().unwrap()).collect();
     let mut out = Vec::new();
     let hd = line(0, &[pulls.get(), calls.get()]);
+    let nops = ops.len();
     if ctor[0] == "mul" {
         let ctl: Vec<f64> = p.iter().map(|&b| bf(b)).collect();
-        let mut m = match catch(move || src.mul_hz(interp, signal::from_iter(ctl))) {
+        let m = match catch(move || src.mul_hz(interp, signal::from_iter(ctl))) {
             Ok(m) => m,
             Err(c) => return vec![line(8, &[c as i128])],
         };
+        let mut m = Some(m);
         out.push(hd);
-        for _ in ops {
-            let exh = m.is_exhausted() as i128;
-            let f = m.next();
+        for (k, op) in ops.iter().enumerate() {
+            if op[0] == "u" {
+                let cap: usize = op[1].parse().unwrap();
+                let n = if k + 1 == nops {
+                    m.take().unwrap().until_exhausted().take(cap).count()
+                } else {
+                    m.as_mut().unwrap().by_ref().until_exhausted().take(cap).count()
+                };
+                out.push(line(4, &[n as i128, pulls.get()]));
+                continue;
+            }
+            let mm = m.as_mut().unwrap();
+            // is_exhausted of the MulHz itself (not of the `&mut MulHz` this binding is)
+            let exh = Signal::is_exhausted(&*mm) as i128;
+            let f = mm.next();
             let mut v = vec![exh, pulls.get(), calls.get()];
             v.extend(f.enc());
             out.push(line(2, &v));
         }
         return out;
     }
-    let mk = move || -> Converter<_, I> {
-        match ctor[0] {
-            "hz" => src.from_hz_to_hz(interp, bf(p[0]), bf(p[1])),
-            "scale" => src.scale_hz(interp, bf(p[0])),
-            "sample" => Converter::scale_sample_hz(src, interp, bf(p[0])),
+    let mk = move || -> Converter<S, I> {
+        match (ctor[0], own) {
+            // own == 2: the associated constructors, handed the source (a `&mut` borrow) directly
+            ("hz", 2) => Converter::from_hz_to_hz(src, interp, bf(p[0]), bf(p[1])),
+            ("scale", 2) => Converter::scale_playback_hz(src, interp, bf(p[0])),
+            ("hz", _) => src.from_hz_to_hz(interp, bf(p[0]), bf(p[1])),
+            ("scale", _) => src.scale_hz(interp, bf(p[0])),
+            ("sample", _) => Converter::scale_sample_hz(src, interp, bf(p[0])),
             _ => panic!("bad ctor"),
         }
     };
-    let mut c = match catch(mk) {
+    let c = match catch(mk) {
         Ok(c) => c,
         Err(code) => return vec![line(8, &[code as i128])],
     };
+    let mut c = Some(c);
     out.push(hd);
-    for op in ops {
+    for (k, op) in ops.iter().enumerate() {
         let a: Vec<i128> = op[1..].iter().map(|t| t.parse().unwrap()).collect();
         match op[0] {
             "n" => {
-                let exh = c.is_exhausted() as i128;
+                let c = c.as_mut().unwrap();
+                // is_exhausted of the Converter itself (not of the `&mut Converter` this binding is)
+                let exh = Signal::is_exhausted(&*c) as i128;
                 let f = c.next();
                 let mut v = vec![exh, pulls.get(), calls.get(), f64_bits(c.verif_interpolation_value())];
                 v.extend(f.enc());
                 out.push(line(1, &v));
             }
             "p" => {
-                c.set_playback_hz_scale(bf(a[0]));
+                c.as_mut().unwrap().set_playback_hz_scale(bf(a[0]));
                 out.push(line(3, &[]));
             }
             "h" => {
-                c.set_hz_to_hz(bf(a[0]), bf(a[1]));
+                c.as_mut().unwrap().set_hz_to_hz(bf(a[0]), bf(a[1]));
                 out.push(line(3, &[]));
             }
             "s" => {
-                c.set_sample_hz_scale(bf(a[0]));
+                c.as_mut().unwrap().set_sample_hz_scale(bf(a[0]));
                 out.push(line(3, &[]));
+            }
+            "u" => {
+                let cap = a[0] as usize;
+                let n = if k + 1 == nops {
+                    c.take().unwrap().until_exhausted().take(cap).count()
+                } else {
+                    c.as_mut().unwrap().by_ref().until_exhausted().take(cap).count()
+                };
+                out.push(line(4, &[n as i128, pulls.get()]));
             }
             _ => panic!("bad op"),
         }
@@ -205,7 +268,7 @@ where
     out
 }
 
-fn run_fmt<F>(itp: i128, nch: usize, samples: &[i128], ctor: &[&str], ops: &[Vec<&str>]) -> Vec<String>
+fn run_fmt<F>(itp: i128, nch: usize, own: i128, tail: i128, samples: &[i128], ctor: &[&str], ops: &[Vec<&str>]) -> Vec<String>
 where
     F: Enc,
     F::Sample: Duplex<f64>,
@@ -215,22 +278,42 @@ where
     let pulls = Rc::new(Cell::new(0));
     let it = CountIter { frames: frames.into_iter(), calls: calls.clone() };
     let mut src = Counted { inner: signal::from_iter(it), pulls: pulls.clone() };
-    if itp == 0 {
+    let mut out = if itp == 0 {
         let interp = Floor::new(src.next());
-        drive(src, interp, &pulls, &calls, ctor, ops)
+        match own {
+            0 => return drive(src, interp, &pulls, &calls, own, ctor, ops),
+            1 => drive(src.by_ref(), interp, &pulls, &calls, own, ctor, ops),
+            _ => drive(&mut src, interp, &pulls, &calls, own, ctor, ops),
+        }
     } else {
         let a = src.next();
         let b = src.next();
         let interp = Linear::new(a, b);
-        drive(src, interp, &pulls, &calls, ctor, ops)
+        match own {
+            0 => return drive(src, interp, &pulls, &calls, own, ctor, ops),
+            1 => drive(src.by_ref(), interp, &pulls, &calls, own, ctor, ops),
+            _ => drive(&mut src, interp, &pulls, &calls, own, ctor, ops),
+        }
+    };
+    // the converter is gone: the borrowed source continues exactly where it was left
+    if out.len() == 1 && out[0].starts_with("8") {
+        return out;
     }
+    for _ in 0..tail {
+        let exh = Signal::is_exhausted(&src) as i128;
+        let f = src.next();
+        let mut v = vec![exh, pulls.get(), calls.get()];
+        v.extend(f.enc());
+        out.push(line(5, &v));
+    }
+    out
 }
 
 fn main() {
     serve(|l| {
         let parts: Vec<&str> = l.split(';').collect();
         let h = toks(parts[0]);
-        let (fmt, itp, nch) = (h[0], h[1], h[2] as usize);
+        let (fmt, itp, nch, own, tail) = (h[0], h[1], h[2] as usize, h[3], h[4]);
         let samples = toks(parts[1]);
         let ctor: Vec<&str> = parts[2].split_whitespace().collect();
         let ops: Vec<Vec<&str>> = parts[3]
@@ -238,12 +321,29 @@ fn main() {
             .map(|o| o.split_whitespace().collect::<Vec<_>>())
             .filter(|o| !o.is_empty())
             .collect();
+        macro_rules! go {
+            ($T:ty) => {
+                run_fmt::<$T>(itp, nch, own, tail, &samples, &ctor, &ops)
+            };
+        }
         let out = match (fmt, nch) {
-            (0, 1) => run_fmt::<f64>(itp, 1, &samples, &ctor, &ops),
-            (1, 1) => run_fmt::<f32>(itp, 1, &samples, &ctor, &ops),
-            (2, 1) => run_fmt::<i16>(itp, 1, &samples, &ctor, &ops),
-            (2, 2) => run_fmt::<[i16; 2]>(itp, 2, &samples, &ctor, &ops),
-            (3, 1) => run_fmt::<u8>(itp, 1, &samples, &ctor, &ops),
+            (0, 1) | (113, 1) => go!(f64),
+            (1, 1) | (112, 1) => go!(f32),
+            (2, 1) | (101, 1) => go!(i16),
+            (2, 2) | (101, 2) => go!([i16; 2]),
+            (3, 1) | (106, 1) => go!(u8),
+            (100, 1) => go!(i8),
+            (102, 1) => go!(I24),
+            (103, 1) => go!(i32),
+            (104, 1) => go!(I48),
+            (105, 1) => go!(i64),
+            (107, 1) => go!(u16),
+            (108, 1) => go!(U24),
+            (108, 2) => go!([U24; 2]),
+            (109, 1) => go!(u32),
+            (110, 1) => go!(U48),
+            (110, 2) => go!([U48; 2]),
+            (111, 1) => go!(u64),
             _ => panic!("bad format"),
         };
         out.join(";")
